@@ -25,12 +25,14 @@ PID = "C20"
 LEVEL = "exploration"
 RULE = ("layer A: all strings of length<=K over {a,B,1,_,-,space,$,é,名,²(alnum, not identifier char),٣(non-ASCII digit)} + keyword table through each name-derivation "
         "function (batched); layer B: all colliding pairs / invented-suffix triples of short strings placed in each "
-        "namespace through the real generator. non-trivial = distinct (function, input) whose output differs from the "
+        "namespace (properties, parameters, schemas, enum members, operationIds of one client - untagged and under several spellings of one tag -, and "
+        "tag spellings that derive the same module name) through the real generator. non-trivial = distinct (function, input) whose output differs from the "
         "input, resp. distinct colliding tuples per namespace")
 ASSUMPTIONS = [
     "identifier validity is judged by str.isidentifier() and keyword.iskeyword() of the running CPython 3.12",
     "layer B reads the emitted code through ast instead of importing it (import failures are C01's subject)",
-    "tag spelling variants that normalise to one key are merged by design and are not treated as collisions",
+    "tag spelling variants that normalise to one key are merged into one client by design; the tags namespace only demands that every OPERATION "
+    "stays on some client and that module/class/attribute names are valid and consistent in number",
 ]
 BOUND = {"quick": "strings<=4 symbols (16105) + keyword table; namespace tuples from strings<=2",
          "thorough": "strings<=5 symbols (177156) + keyword table; namespace tuples from strings<=3"}
@@ -137,7 +139,9 @@ def cases(tier, seed):
         pools = {"props": over(ALPHA, 2) + over(small[:6], 3) + extras, "enum": over(ALPHA, 2) + over(small[:6], 3) + extras,
                  "params": over(ALPHA, 2) + extras, "schemas": over(ALPHA, 2) + extras, "opids": over(ALPHA, 2) + extras}
     pools["opids-tagged"] = pools["opids"] if tier != "quick" else over(["a", "B", "_", "-"], 2) + ["getUser", "get_user", "GetUser", "get-user"]
-    for ns in ("props", "params", "schemas", "enum", "opids", "opids-tagged"):
+    pools["tags"] = (over(["a", "B", "1", "_", "-", ".", "/", " "], 2 if tier == "quick" else 3)
+                     + ["user.profile", "user-profile", "user profile", "User/Profile", "user:profile", "userProfile", "user_profile", "UserProfile"] + extras)
+    for ns in ("props", "params", "schemas", "enum", "opids", "opids-tagged", "tags"):
         seen = set()
         pool = [s for s in pools[ns] if not (s in seen or seen.add(s))]
         for names in expand_plan({"ns": ns, "strings": pool}):
@@ -152,6 +156,7 @@ NS_DERIVE = {
     "schemas": lambda s: _derive("sanitize_class_name", s),
     "enum": lambda s: _derive("enum_str_member", s),
     "opids": lambda s: _derive("sanitize_method_name", s),
+    "tags": lambda s: _derive("sanitize_module_name", s),
 }
 
 
@@ -163,7 +168,7 @@ def expand_plan(plan):
     if ns in ("params",):
         # a parameter name must be a usable HTTP token-ish name; keep printable ASCII without spaces for header safety
         strings = [s for s in strings if s and all(33 <= ord(c) < 127 for c in s)]
-    if ns in ("opids", "opids-tagged"):
+    if ns in ("opids", "opids-tagged", "tags"):
         strings = [s for s in strings if s.strip()]
     if ns == "schemas":
         strings = [s for s in strings if s and all(33 <= ord(c) < 127 for c in s) and "$" not in s]
@@ -483,5 +488,60 @@ def run_ns_tuple(ns, names):
                     urls.add(n.value)
         if len(urls) != len(names) and len(mn) == len(names):
             bad("merged", "two methods address the same path", f"urls={urls}")
+        return F, "checked"
+    if ns == "tags":
+        # tag spellings that derive the same module name, one operation each: every operation must stay callable on some
+        # client (merging the SPELLINGS into one client is fine, merging or dropping the OPERATIONS is not), and every module,
+        # class and APIClient attribute derived from the tags must be a valid identifier
+        paths = {}
+        for i, n in enumerate(names):
+            paths[f"/r{i}"] = {"get": {"operationId": f"op{'abcdef'[i]}", "tags": [n], "responses": {"204": {"description": "d"}}}}
+        doc = sandbox.base_doc(None, paths)
+        files, err = _gen(doc)
+        if err is not None:
+            return F, "rejected:" + type(err).__name__
+        urls = {}
+        for rel, src in sorted(files.items()):
+            if not rel.startswith("endpoints/") or rel.endswith("__init__.py"):
+                continue
+            stem = os.path.basename(rel)[:-3]
+            if not ident_ok(stem):
+                bad("invalid", "module " + classify_bad(stem), f"module {stem!r}")
+            tree, se = _parse(src)
+            if tree is None:
+                bad("syntax", _norm(se.msg), f"{rel}: {se.msg}")
+                continue
+            for node in tree.body:
+                if isinstance(node, ast.ClassDef) and node.name.endswith("Client") and not node.name.endswith("Protocol"):
+                    if not ident_ok(node.name):
+                        bad("invalid", classify_bad(node.name), f"class {node.name!r}")
+                    for st in node.body:
+                        if isinstance(st, ast.AsyncFunctionDef) and not st.name.startswith("__"):
+                            for n in ast.walk(st):
+                                if isinstance(n, ast.Constant) and isinstance(n.value, str) and n.value.startswith("/r"):
+                                    urls.setdefault(n.value, []).append(f"{rel}:{node.name}.{st.name}")
+        for i in range(len(names)):
+            if f"/r{i}" not in urls:
+                bad("dropped", "an operation is on no tag client", f"/r{i} (tag {names[i]!r}); reachable: {urls}")
+        csrc = files.get("client.py")
+        attrs = []
+        if csrc is not None:
+            tree, se = _parse(csrc)
+            if tree is None:
+                bad("syntax", _norm(se.msg), f"client.py: {se.msg}")
+            else:
+                for node in tree.body:
+                    if isinstance(node, ast.ClassDef) and node.name == "APIClient":
+                        for st in node.body:
+                            if isinstance(st, ast.FunctionDef) and any(isinstance(d, ast.Name) and d.id == "property" for d in st.decorator_list):
+                                attrs.append(st.name)
+                if len(attrs) != len(set(attrs)):
+                    bad("merged", "duplicate tag attribute on APIClient", f"attrs={attrs}")
+                for a in attrs:
+                    if not ident_ok(a):
+                        bad("invalid", classify_bad(a), f"attribute {a!r}")
+                mods = {os.path.basename(r)[:-3] for r in files if r.startswith("endpoints/") and not r.endswith("__init__.py")}
+                if len(attrs) != len(mods):
+                    bad("dropped", "tag modules and APIClient tag attributes differ in number", f"attrs={attrs} modules={sorted(mods)}")
         return F, "checked"
     raise HarnessError(f"unknown namespace {ns}")
